@@ -54,18 +54,18 @@ type access struct {
 }
 
 type shadow struct {
-	keep   any // keeps the object alive so that its address is not reused
-	write  access
-	hasW   bool
-	reads  []access
+	keep  any // keeps the object alive so that its address is not reused
+	write access
+	hasW  bool
+	reads []access
 }
 
 // RaceReport describes one data race.
 type RaceReport struct {
-	Addr  string
-	A, B  string // sites
-	AW,BW bool   // which are writes
-	TA,TB int
+	Addr   string
+	A, B   string // sites
+	AW, BW bool   // which are writes
+	TA, TB int
 }
 
 func (r RaceReport) String() string {
@@ -171,6 +171,24 @@ func (o *SyncObj) Touch() {
 	t.rvc = t.rvc.join(o.vc)
 	t.tick()
 	o.vc = o.vc.join(t.rvc)
+}
+
+// Release publishes the running thread's clock on the object (sync.Pool Put, atomic store).
+func (o *SyncObj) Release() {
+	s := S
+	if !RaceOn || s == nil || s.cur == nil || s.aborting {
+		return
+	}
+	o.vc = o.vc.join(s.raceRelease(s.cur))
+}
+
+// Acquire joins the object's clock into the running thread's (sync.Pool Get, atomic load).
+func (o *SyncObj) Acquire() {
+	s := S
+	if !RaceOn || s == nil || s.cur == nil || s.aborting {
+		return
+	}
+	s.cur.rvc = s.cur.rvc.join(o.vc)
 }
 
 func (s *Sched) raceAcquire(t *Thread, vc rclock) {
